@@ -45,6 +45,26 @@ Theorem C03_starpu_descriptors_ok :
 Proof. vm_compute. repeat split; reflexivity. Qed.
 Print Assumptions C03_starpu_descriptors_ok.
 
+(* the three runtimes are given the SAME access declarations: site by site (same order, same pass, same wrapper functions) the
+   multiset of (mode, buffer kind) pairs declared to OpenMP (depend clauses), Specx (SpRead / SpCommutativeWrite) and StarPU (handle
+   modes) coincide, StarPU's additional read-only symbolic-data handles apart - so the task model of Part 2 (Sched/OmpDefs.v), whose
+   equality with the sequential executor is proved for every legal schedule, is also the model of the Specx and StarPU executors *)
+Definition kind_code (k : gkind) : nat := match k with KData => 0 | KRhs => 1 | KMult => 2 | KLoc => 3 | KUnknown => 4 end.
+Definition mode_code (m : gmode) : nat := match m with MIn => 0 | MOut => 1 | MInout => 2 | MCommute => 3 | MOther => 4 end.
+Fixpoint ins_sorted (x : nat) (l : list nat) : list nat :=
+  match l with [] => [x] | y :: r => if Nat.leb x y then x :: l else y :: ins_sorted x r end.
+Definition access_signature (s : site) : string * list string * list nat :=
+  (s_fn s, map fst (s_wrappers s),
+   fold_right ins_sorted [] (flat_map (fun d => match snd (fst d) with KUnknown => [] | k => [5 * mode_code (fst (fst d)) + kind_code k] end) (s_deps s))).
+Definition sig_eqb (a b : string * list string * list nat) : bool :=
+  String.eqb (fst (fst a)) (fst (fst b)) && list_eqb String.eqb (snd (fst a)) (snd (fst b)) && list_eqb Nat.eqb (snd a) (snd b).
+Theorem C03_same_declarations_in_all_runtimes :
+  list_eqb sig_eqb (map access_signature specx_sites) (map access_signature omp_sites) = true /\
+  list_eqb sig_eqb (map access_signature starpu_sites) (map access_signature omp_sites) = true /\
+  forallb (fun s => forallb (fun d => match snd (fst d), fst (fst d) with KUnknown, MIn => true | KUnknown, _ => false | _, _ => true end) (s_deps s)) starpu_sites = true.
+Proof. vm_compute. repeat split; reflexivity. Qed.
+Print Assumptions C03_same_declarations_in_all_runtimes.
+
 (* execute() submits the passes in this order (near field before L2P), in both executors *)
 Theorem C03_execute_order :
   map snd omp_execute_order = ["P2M"; "M2M"; "M2L"; "L2L"; "P2P"; "L2P"]%string /\ omptsm_execute_order = omp_execute_order.
